@@ -486,30 +486,46 @@ def search_one(ctx, h, w, sc, prim, patterns=None):
         check_pattern(ctx, sess, fr, h, w, sc, prim, segs, bits, passed, cross)
 
 
-def interesting_patterns(ctx, h, w, n_random):
-    """for frames too large to enumerate: every pattern that obeys the degree rule of the non-cycle
-    form (these are the ones where connectivity decides) is too many as well, so: random patterns
-    biased to low density + random valid-looking walks."""
+def degree_ok_patterns(h, w):
+    """every pattern in which each lattice point meets 0, 1, 2 or 4 drawn segments (there the
+    strand condition decides)"""
     segs = lattice_segments(h, w)
-    rng = ctx.rng
+    at = {}
+    for i, (sg, _) in enumerate(segs):
+        for p in sg:
+            at.setdefault(p, []).append(i)
+    groups = list(at.values())
+    for bits in itertools.product([False, True], repeat=len(segs)):
+        if all(sum(bits[i] for i in g) != 3 for g in groups):
+            yield bits
+
+
+def sampled_patterns(ctx, h, w, n_random):
+    seen = set()
+    for bits in degree_ok_patterns(h, w):
+        seen.add(bits)
+        yield bits
+    nseg = (h + 1) * w + h * (w + 1)
     for _ in range(n_random):
-        dens = rng.choice([0.15, 0.3, 0.5, 0.7])
-        yield tuple(rng.random() < dens for _ in segs)
+        dens = ctx.rng.choice([0.15, 0.3, 0.5, 0.7])
+        bits = tuple(ctx.rng.random() < dens for _ in range(nseg))
+        if bits not in seen:
+            seen.add(bits)
+            yield bits
 
 
 def search(ctx):
-    frames = search_frames(ctx)
-    for (h, w) in frames:
+    for (h, w) in search_frames(ctx):
         nseg = (h + 1) * w + h * (w + 1)
         for sc in (False, True):
             for prim in (False, True):
-                if nseg <= (17 if ctx.thorough else 12) and not (prim and nseg > 12 and not ctx.thorough):
-                    if prim and nseg > 12:
-                        search_one(ctx, h, w, sc, prim, list(interesting_patterns(ctx, h, w, 3000)))
-                    else:
-                        search_one(ctx, h, w, sc, prim)
+                if prim:
+                    full = nseg <= 10
+                    nrand = 3000 if (ctx.thorough or ctx.deep) else 500
                 else:
-                    search_one(ctx, h, w, sc, prim, list(interesting_patterns(ctx, h, w, 400 if not ctx.deep else 3000)))
+                    full = nseg <= (17 if ctx.thorough else 12)
+                    nrand = 3000
+                search_one(ctx, h, w, sc, prim, None if full else sampled_patterns(ctx, h, w, nrand))
 
 
 def replay(ctx, rp):
